@@ -473,7 +473,7 @@ func runC03(tier string) int {
 	r.Assume("reference switch rule: a body-less entry shares the next entry that has a body; trailing body-less entries go to the statement after the switch; default runs iff no case value matches; bodies never fall through; break leaves the switch",
 		"var domain = every case value, its neighbours and 0 (always contains a non-matching value)")
 	return r.Finish(r.Get("evaluations"), r.Get("nontrivial"),
-		"every case list of length n (default at any position or absent) x every assignment of bodies from a 15-body alphabet (a body that is only an if around a command, only a jumped-to label, only an if with an empty block, a body that is only a break, a body ending in a hand-written goto_if_set, empty, cmd, cmd+break, break+dead tail, if-break, while-with-break, nested switch, labelled body with goto into it, cmd+end, if-continue in loops; all 15 kinds up to n=3, 10 at n=4, 8 at n=5, 5 beyond) x 10 contexts (alone, first/middle/last, in while, in do-while, in another switch, in infinite while, with case values written as constant expressions, followed by a plain return at the end of an if block or of another switch's case body) x optimize on/off, each also written on a single source line and compiled with line markers (explored again whenever the marker-stripped output differs); plus every case list of length <= 2 (thorough 3) as the statement of a poryswitch case (4 forms) with a var and with AutoVar command operands; plus the dead-label programs (labelled statements after a break in cases, also inside an if whose case body goes on); plus the dead-label programs and all case lists of length <= 2 with every break / closing continue written as the selected case of a poryswitch (3 forms); plus switches with K cases and switches nested K deep for every K up to the scale bounds; non-trivial = >= 2 entries and >= 3 distinct observable events")
+		"every case list of length n (default at any position or absent) x every assignment of bodies from a 15-body alphabet (a body that is only an if around a command, only a jumped-to label, only an if with an empty block, a body that is only a break, a body ending in a hand-written goto_if_set, empty, cmd, cmd+break, break+dead tail, if-break, while-with-break, nested switch, labelled body with goto into it, cmd+end, if-continue in loops; all 15 kinds up to n=3, 10 at n=4, 8 at n=5, 5 beyond) x 10 contexts (alone, first/middle/last, in while, in do-while, in another switch, in infinite while, with case values written as constant expressions, followed by a plain return at the end of an if block or of another switch's case body) x optimize on/off, each also written on a single source line and compiled with line markers (explored again whenever the marker-stripped output differs); plus every case list of length <= 2 (thorough 3) as the statement of a poryswitch case (4 forms) with a var and with AutoVar command operands; plus the dead-label programs (labelled statements after a break in cases, also inside an if whose case body goes on); plus the dead-label programs and all case lists of length <= 2 with every break / closing continue written as the selected case of a poryswitch (3 forms) or preceded by a poryswitch whose selected case is empty (form 3); plus switches with K cases and switches nested K deep for every K up to the scale bounds; non-trivial = >= 2 entries and >= 3 distinct observable events")
 }
 
 // oneLine rewrites a generated source so that every statement sits on one line
